@@ -490,6 +490,11 @@ def preps(draw, spec=None, uneven=False):
         # a blank-separated / unpadded list cannot hold a 16-character name
         # (it has no separator): such a list is not readable input
         return 'synced'
+    if k == 7 and spec is not None and \
+            len(' '.join(spec['vars'])) % 16 == 0:
+        # a blank-separated list whose length happens to be a multiple of
+        # 16 is read as fixed-width fields: not readable input either
+        return 'synced'
     return 'varlist-stripped' if k == 6 else 'varlist-single-blank'
 
 
